@@ -386,6 +386,77 @@ def _devirtualize(raw, raws):
     return n
 
 
+def _inline_known_closure_calls(raw, raws, max_sites=4):
+    """After a higher-order helper was inlined (`probe_both(|t| t.find(..))`), its calls of the closure parameter are calls of a closure
+    that is created in this very body: `FnMut::call_mut(&mut c, (a, b))` with `c = closure(def)[captures]`.  Splice the closure's body
+    in (arguments untupled), so that what the closure does is seen where it is done.  Closures that create closures or that are not
+    bound exactly once are left alone.  Returns the number of calls spliced."""
+    by_dpath = {r["dpath"]: r for r in raws}
+    n = 0
+    for _round in range(max_sites):
+        defs = {}
+        for blk in raw["blocks"]:
+            for st in blk["stmts"]:
+                if st["k"] in ("assign", "set_discr"):
+                    l = st["place"]["local"]
+                    defs.setdefault(l, []).append(st if st["k"] == "assign" and not st["place"]["proj"] else None)
+            t = blk["term"]
+            if t["k"] == "call" and "dest" in t:
+                defs.setdefault(t["dest"]["local"], []).append(None)
+
+        def closure_of(op, depth=0):
+            """the closure aggregate statement an operand (the closure, or a reference to it) goes back to"""
+            if op["k"] not in ("copy", "move") or depth > 12:
+                return None
+            pl = op["place"]
+            if pl["proj"] and not (len(pl["proj"]) == 1 and pl["proj"][0]["k"] == "deref"):
+                return None
+            l = pl["local"]
+            if l <= raw["arg_count"]:
+                return None
+            ds = defs.get(l, [])
+            if len(ds) != 1 or ds[0] is None:
+                return None
+            rv = ds[0]["rv"]
+            if rv["k"] == "aggregate" and rv.get("agg") == "closure":
+                return ds[0]
+            if rv["k"] == "use":
+                return closure_of(rv["op"], depth + 1)
+            if rv["k"] == "ref" and (not rv["place"]["proj"] or (len(rv["place"]["proj"]) == 1 and rv["place"]["proj"][0]["k"] == "deref")):
+                return closure_of({"k": "move", "place": rv["place"]}, depth + 1)
+            return None
+        did = False
+        for bb, blk in enumerate(raw["blocks"]):
+            t = blk["term"]
+            if t["k"] != "call" or t.get("resolved") or blk.get("cleanup") or "dest" not in t or len(t.get("args", [])) != 2:
+                continue
+            if t.get("callee") not in ("core::ops::FnMut::call_mut", "core::ops::Fn::call", "core::ops::FnOnce::call_once"):
+                continue
+            st = closure_of(t["args"][0])
+            if st is None:
+                continue
+            cb = by_dpath.get(st["rv"]["def"])
+            if cb is None or _creates_closure(cb) or cb["dpath"] == raw["dpath"]:
+                continue
+            tup = t["args"][1]
+            nparams = cb["arg_count"] - 1
+            if tup["k"] not in ("copy", "move") or tup["place"]["proj"]:
+                continue
+            args = [t["args"][0]]
+            for i in range(nparams):
+                ty = cb["locals"][2 + i]["ty"]
+                args.append({"k": "move", "place": {"local": tup["place"]["local"], "proj": [{"k": "field", "i": i, "tuple": True, "ty": ty}], "ty": ty}})
+            t["args"] = args
+            t["closure_call_of"] = cb["dpath"]
+            inline_call(raw, bb, cb)
+            n += 1
+            did = True
+            break
+        if not did:
+            break
+    return n
+
+
 def _call_edges(raws):
     """body path -> list of (bb, callee path) for resolved local Item calls; and the set of functions used as values"""
     by_path = {r["path"]: r for r in raws}
@@ -581,6 +652,7 @@ def build_view(facts, policy, roles=None, max_rounds=6, protect=()):
                     fb, fl = len(caller["blocks"]), len(caller["locals"])
                     inline_call(caller, bb, by_path[c])
                     _devirtualize(caller, raws)
+                    _inline_known_closure_calls(caller, raws)
                     if sites[c] > 1 and _creates_closure(by_path[c]):
                         _clone_closures(d, raws, caller, by_path[c], fb, fl, clone_counter)
                     done.append((p, c))
